@@ -866,6 +866,22 @@ pub(crate) mod b {
         println!("BOUNDED-CASES {}", n);
     }
 
+    /// WITNESS of a known finding (C15): quoted text becomes an ordinary CellText fragment, so a quoted "{a}" inside
+    /// a rectangle is taken as a tag of the rectangle instead of being emitted verbatim.  Fails while present.
+    #[test]
+    fn witness_quoted_tag_styles_its_box() {
+        let render = |text: &str| crate::to_svg_string_compressed(text);
+        // control: any other quoted text in the box is a text element and leaves the rect alone
+        let control = render("+-------+\n| \"a-b\" |\n+-------+\n");
+        assert!(control.contains(">a-b</text>") && control.contains("class=\"solid nofill\""), "control: {}", control);
+        let got = render("+-------+\n| \"{a}\" |\n+-------+\n");
+        if !got.contains(">{a}</text>") || !got.contains("class=\"solid nofill\"") {
+            let rect = got.find("<rect x=").map(|i| &got[i..got[i..].find('>').unwrap() + i + 1]);
+            println!("BOUNDED-WITNESS box with the quoted text {{a}}: {} text element(s), rect {:?}", got.matches("<text").count(), rect);
+            panic!("quoted text is emitted verbatim and changes nothing outside of it");
+        }
+    }
+
     /// WITNESS of a known finding (C11): whether a tag next to the right border styles its box depends on the
     /// scale, because `Text::bounds` adds an unscaled width to a scaled anchor.  Fails while the defect is present.
     #[test]
